@@ -33,6 +33,7 @@ class Mutation:
     node: ast.AST
     fi: FunctionInfo
     why: str
+    memo: Optional[Tuple[str, str]] = None  # (class, attribute): the mutation rebinds a private non-table attribute (a cache)
 
     def text(self):
         return norm(self.node)
@@ -45,6 +46,8 @@ class Effects:
         self.prog = ctx.prog
         self._sum: Dict[Tuple, List[Mutation]] = {}
         self._lend: Dict[Tuple, Optional[int]] = {}
+        self._capt: Dict[Tuple, Dict[str, Set[Tuple[str, str]]]] = {}
+        self._ltab: Dict[str, Dict[str, int]] = {}
         self._busy: Set[Tuple] = set()
         # call node -> callees, from the kind engine's resolution
         self.callees: Dict[Tuple[str, int], List[FunctionInfo]] = {}
@@ -92,6 +95,77 @@ class Effects:
         self._lend[key] = out
         return out
 
+    def captures(self, fi: FunctionInfo, consts: Optional[Dict[str, object]] = None) -> Dict[str, Set[Tuple[str, str]]]:
+        """parameter -> {(holder parameter, table)}: objects handed in that the function stores by reference in a table of
+        another argument (`self._edge_metadata[i] = metadata`), directly or through callees."""
+        key = ("C", fi.qualname, tuple(sorted((consts or {}).items())))
+        if key in self._capt:
+            return self._capt[key]
+        if key in self._busy:
+            return {}
+        self._busy.add(key)
+        try:
+            st = _State(self, fi, dict(consts or {}))
+            st.run()
+            out = {p: set(h) for p, h in st.captures.items()}
+        finally:
+            self._busy.discard(key)
+        self._capt[key] = out
+        return out
+
+    def lend_tables(self, fi: FunctionInfo, _depth: int = 0) -> Dict[str, int]:
+        """table attribute -> level for a method that returns a table of its receiver (level 1: the table, whose VALUES are
+        the stored objects) or one entry of it (level 0: the stored object itself)."""
+        key = fi.qualname
+        if key in self._ltab:
+            return self._ltab[key]
+        out: Dict[str, int] = {}
+        self._ltab[key] = out
+        if fi.cls is None or not fi.params:
+            return out
+        me = fi.params[0].arg
+        v = self.ctx.view(fi)
+
+        def table(x):
+            return x.attr if isinstance(x, ast.Attribute) and isinstance(x.value, ast.Name) and x.value.id == me else None
+
+        for n in walk_no_nested(fi.node):
+            if not (isinstance(n, ast.Return) and n.value is not None):
+                continue
+            r = v.inline(n.value)
+            alts = [r.body, r.orelse] if isinstance(r, ast.IfExp) else [r]
+            for a in alts:
+                if table(a):
+                    out[table(a)] = min(out.get(table(a), 9), 1)
+                elif isinstance(a, ast.Subscript) and table(a.value):
+                    out[table(a.value)] = 0
+                elif isinstance(a, ast.Call) and isinstance(a.func, ast.Attribute) and a.func.attr in ("get", "setdefault") and table(a.func.value):
+                    out[table(a.func.value)] = 0
+                elif isinstance(a, ast.Call) and _depth < 3:
+                    orig = getattr(a, "_orig", a)
+                    for callee in self.ctx.callees(fi, orig):
+                        if callee.cls is fi.cls and isinstance(a.func, ast.Attribute) and isinstance(a.func.value, ast.Name) and a.func.value.id == me:
+                            for t, l in self.lend_tables(callee, _depth + 1).items():
+                                out[t] = min(out.get(t, 9), l)
+        return out
+
+    def memo_attr(self, fi: FunctionInfo, base: ast.Name, attr: str):
+        """(class, attr) when `<base>.<attr> = ...` rebinds a private attribute that is none of the declared tables of the
+        object's class: a cache of derived data, not part of the observable state by itself"""
+        cls = None
+        if fi.cls is not None and fi.params and fi.params[0].arg == base.id and not fi.is_static:
+            cls = fi.cls.name
+        else:
+            from .kinds import Obj, strip_none
+
+            k = strip_none(self.ctx.view(fi).kind(base))
+            if isinstance(k, Obj):
+                cls = k.cls
+        tabs = self.ctx.interp.class_tables.get(cls)
+        if tabs is None or attr in tabs or not attr.startswith("_"):
+            return None
+        return (cls, attr)
+
     def _analyse(self, fi, consts) -> List[Mutation]:
         st = _State(self, fi, consts)
         st.run()
@@ -107,6 +181,11 @@ class _State:
         self.mutations: List[Mutation] = []
         self.returned: List[Set[Ref]] = []
         self._seen_mut = set()
+        # parameter -> {(holder parameter, table attribute)}: the object handed in as the parameter is stored BY REFERENCE in a
+        # table of the holder (`self._edge_metadata[i] = metadata`)
+        self.captures: Dict[str, Set[Tuple[str, str]]] = {}
+        # local object name -> root -> tables of that object which hold internal objects of `root` by reference
+        self.captured: Dict[str, Dict[str, Set[str]]] = {}
         self.roots = [a.arg for a in fi.params] + [a.arg for a in fi.node.args.kwonlyargs]
         for r in self.roots:
             self.env[r] = {Ref(r, 0)}
@@ -175,20 +254,37 @@ class _State:
         if isinstance(st, ast.If):
             self.ev(st.test)
             f = self.fold(st.test)
-            if f is not False:
+            if f is True:
                 self.block(st.body)
-            if f is not True:
+            elif f is False:
                 self.block(st.orelse)
+            else:
+                # both arms start from the same environment; afterwards a name refers to whatever it referred to on either
+                before = {k: set(v) for k, v in self.env.items()}
+                self.block(st.body)
+                after_body = self.env
+                self.env = before
+                self.block(st.orelse)
+                for k, v in after_body.items():
+                    self.env[k] = set(self.env.get(k, ())) | v
             return
         if isinstance(st, (ast.For, ast.AsyncFor)):
             it = self.ev(st.iter)
             self.bind_target(st.target, self.elements(it, st.iter))
+            snap = self._snapshot()
             self.block(st.body)
+            if self._snapshot() != snap:
+                # aliases created late in the body reach its earlier statements on the next iteration
+                self.bind_target(st.target, self.elements(it, st.iter))
+                self.block(st.body)
             self.block(st.orelse)
             return
         if isinstance(st, ast.While):
             self.ev(st.test)
+            snap = self._snapshot()
             self.block(st.body)
+            if self._snapshot() != snap:
+                self.block(st.body)
             self.block(st.orelse)
             return
         if isinstance(st, (ast.With, ast.AsyncWith)):
@@ -244,22 +340,51 @@ class _State:
                     self.ev(ch)
             return
 
+    def _snapshot(self):
+        return (
+            {k: frozenset(v) for k, v in self.env.items() if v},
+            {k: {r: frozenset(t) for r, t in d.items()} for k, d in self.captured.items() if d},
+        )
+
+    def _holder_table(self, target):
+        """(root parameter, attribute) when `target` is a slot of `<param>.<attr>[...]` / `<param>.<attr>`"""
+        cur = target
+        while isinstance(cur, ast.Subscript):
+            cur = cur.value
+        if isinstance(cur, ast.Attribute) and isinstance(cur.value, ast.Name) and cur.value.id in self.roots:
+            if {r for r in self.env.get(cur.value.id, ()) if r.level == 0 and r.root == cur.value.id}:
+                return cur.value.id, cur.attr
+        return None
+
+    def _capture(self, holder, table, val: Set[Ref]):
+        for r in val:
+            if r.level == 0 and r.root in self.roots and r.root != holder:
+                self.captures.setdefault(r.root, set()).add((holder, table))
+
     # -------------------------------------------------------------- assignment / mutation
-    def mutate(self, root: str, node, why: str):
+    def mutate(self, root: str, node, why: str, memo=None):
         k = (root, id(node))
         if k in self._seen_mut:
             return
         self._seen_mut.add(k)
-        self.mutations.append(Mutation(root, node, self.fi, why))
+        self.mutations.append(Mutation(root, node, self.fi, why, memo))
 
     def assign(self, target, val: Set[Ref], st):
         if isinstance(target, ast.Name):
             self.env[target.id] = set(val) | (self.env.get(target.id, set()) if target.id in self.roots and False else set())
+            src = getattr(st, "value", None)
+            if isinstance(src, ast.Name) and src.id in self.captured:
+                self.captured[target.id] = self.captured[src.id]
+            elif not isinstance(st, ast.NamedExpr) or True:
+                self.captured.pop(target.id, None)
         elif isinstance(target, (ast.Tuple, ast.List)):
             for t in target.elts:
                 self.assign(t.value if isinstance(t, ast.Starred) else t, self.elements(val, None), st)
         elif isinstance(target, (ast.Subscript, ast.Attribute)):
             self.store_through(target, st)
+            ht = self._holder_table(target)
+            if ht is not None and isinstance(target, ast.Subscript):
+                self._capture(ht[0], ht[1], val)
             if isinstance(target, ast.Attribute) and isinstance(target.value, ast.Name):
                 # obj.field = <value>: the field now also refers to whatever the value referred to
                 key = f"{target.value.id}.{target.attr}"
@@ -268,9 +393,12 @@ class _State:
     def store_through(self, target, st):
         base = target.value
         refs = self.ev(base)
+        memo = None
+        if isinstance(st, (ast.Assign, ast.AnnAssign)) and isinstance(target, ast.Attribute) and isinstance(base, ast.Name) and base.id in self.roots:
+            memo = self.eff.memo_attr(self.fi, base, target.attr)
         for r in refs:
             if r.level == 0:
-                self.mutate(r.root, st, f"store through `{norm(base)}`, which refers to state of `{r.root}`")
+                self.mutate(r.root, st, f"store through `{norm(base)}`, which refers to state of `{r.root}`", memo if memo and r.root == base.id else None)
 
     def bind_target(self, target, val):
         if isinstance(target, ast.Name):
@@ -294,6 +422,9 @@ class _State:
             extra = set()
             if isinstance(e.value, ast.Name):
                 extra = set(self.env.get(f"{e.value.id}.{e.attr}", ()))
+                for root, tabs in self.captured.get(e.value.id, {}).items():
+                    if e.attr in tabs:
+                        extra.add(Ref(root, 1))
             return {Ref(r.root, 0) for r in base if r.level == 0} | {Ref(r.root, 1) for r in base if r.level == 1} | extra
         if isinstance(e, ast.Subscript):
             base = self.ev(e.value)
@@ -392,6 +523,11 @@ class _State:
                         self.mutate(r.root, e, f"`out=` writes into an array that is state of `{r.root}`")
             callees = self.eff.callees.get((self.fi.qualname, id(e)), [])
             if not callees:
+                if name in ("append", "add", "setdefault", "insert"):
+                    ht = self._holder_table(f.value)
+                    if ht is not None:
+                        for a in args:
+                            self._capture(ht[0], ht[1], a)
                 if name in MUTATORS:
                     for r in recv:
                         if r.level == 0:
@@ -451,11 +587,37 @@ class _State:
             for m in self.eff.mutations(callee, consts):
                 for r in binding.get(m.root, ()):
                     if r.level == 0:
-                        self.mutate(r.root, e, f"calls {callee.short}, which modifies its `{m.root}` ({loc(m.fi, m.node)}: {m.why})")
+                        self.mutate(r.root, e, f"calls {callee.short}, which modifies its `{m.root}` ({loc(m.fi, m.node)}: {m.why})", m.memo)
+            # ---- references stored by the callee in one of its other arguments (usually its receiver)
+            exprs: Dict[str, ast.AST] = {}
+            if is_method and not is_ctor and isinstance(e.func, ast.Attribute):
+                exprs[pnames[0]] = e.func.value
+            for p, a in zip(rest, e.args):
+                exprs[p] = a
+            for kw in e.keywords:
+                if kw.arg:
+                    exprs[kw.arg] = kw.value
+            for p, holders in self.eff.captures(callee, consts).items():
+                lent = {r for r in binding.get(p, ()) if r.level == 0}
+                if not lent:
+                    continue
+                for q, table in holders:
+                    hx = exprs.get(q)
+                    if isinstance(hx, ast.Name) and hx.id in self.roots and any(r.level == 0 and r.root == hx.id for r in self.env.get(hx.id, ())):
+                        self._capture(hx.id, table, lent)
+                    elif isinstance(hx, ast.Name):
+                        for r in lent:
+                            self.captured.setdefault(hx.id, {}).setdefault(r.root, set()).add(table)
             if is_ctor:
                 # a constructed object that stored an argument by reference keeps that alias: handled through mutations of the
                 # constructor's parameters above; the new object itself is fresh
                 continue
+            # ---- a getter called on an object that holds borrowed references hands them out again
+            if is_method and isinstance(e.func, ast.Attribute) and isinstance(e.func.value, ast.Name) and self.captured.get(e.func.value.id):
+                for table, level in self.eff.lend_tables(callee).items():
+                    for root, tabs in self.captured[e.func.value.id].items():
+                        if table in tabs:
+                            out.add(Ref(root, level))
             lend = self.eff.lends(callee, consts)
             for root, level in lend.items():
                 for r in binding.get(root, ()):
@@ -476,7 +638,163 @@ def check_pure(ctx, eff: Effects, res: Result, dotted: str, roots=("self",), con
         if not bad:
             res.ok(rule, fi.short, f"`{root}` is not modified", detail_prefix + root, loc(fi, fi.node))
         for m in bad:
+            if m.memo is not None:
+                # memoisation: not an observable change by itself - sound exactly when every mutator invalidates it
+                res.ok(rule, fi.short, m.text(), detail_prefix + root + f":memo {m.memo[1]}", loc(m.fi, m.node))
+                check_cache_coherence(ctx, res, m.memo[0], m.memo[1])
+                continue
             res.violation(rule, fi.short, m.text(), detail_prefix + root, f"{m.why} - but {fi.short} must leave `{root}` unchanged", loc(m.fi, m.node))
+
+
+def _fold_test(test, consts) -> Optional[bool]:
+    st = _State.__new__(_State)
+    st.consts = consts
+    return _State.fold(st, test)
+
+
+def live_reads(ctx, fi: FunctionInfo, consts: Dict[str, object], depth: int = 0, _seen=None) -> Set[Tuple[str, str]]:
+    """(class, table) read by `fi` under the literal bindings `consts` (arms of `if <literal flag>` that cannot run are
+    skipped), including the reads of the same-object methods it calls with their own literal arguments / defaults."""
+    _seen = _seen if _seen is not None else set()
+    key = (fi.qualname, tuple(sorted(consts.items())))
+    if key in _seen or depth > 4:
+        return set()
+    _seen.add(key)
+    v = ctx.view(fi)
+    dead = set()
+    for n in walk_no_nested(fi.node):
+        if isinstance(n, ast.If):
+            f = _fold_test(n.test, consts)
+            arm = n.orelse if f is True else (n.body if f is False else [])
+            for st in arm:
+                for x in ast.walk(st):
+                    dead.add(id(x))
+        if isinstance(n, ast.IfExp):
+            f = _fold_test(n.test, consts)
+            arm = n.orelse if f is True else (n.body if f is False else None)
+            if arm is not None:
+                for x in ast.walk(arm):
+                    dead.add(id(x))
+    # a `return` in a live, decided arm ends the function: what follows that `if` is dead as well
+    body = fi.node.body if isinstance(fi.node.body, list) else []
+    ended = False
+    for st in body:
+        if ended:
+            for x in ast.walk(st):
+                dead.add(id(x))
+            continue
+        if isinstance(st, ast.If):
+            f = _fold_test(st.test, consts)
+            arm = st.body if f is True else (st.orelse if f is False else None)
+            if arm and isinstance(arm[-1], (ast.Return, ast.Raise)):
+                ended = True
+    out = set()
+    for o in v.ops():
+        if o.op in ("read", "iter", "member") and id(o.node) not in dead:
+            out.add((o.cls, o.table))
+    for n in walk_no_nested(fi.node):
+        if isinstance(n, ast.Call) and id(n) not in dead:
+            for callee in v._same_object_callees(n):
+                pn = [a.arg for a in callee.params]
+                if callee.cls is not None and not callee.is_static:
+                    pn = pn[1:]
+                c2 = {}
+                for p_, a_ in zip(pn, n.args):
+                    if isinstance(a_, ast.Constant):
+                        c2[p_] = a_.value
+                    elif isinstance(a_, ast.Name) and a_.id in consts:
+                        c2[p_] = consts[a_.id]
+                    else:
+                        c2[p_] = ...
+                for kw in n.keywords:
+                    if kw.arg:
+                        c2[kw.arg] = kw.value.value if isinstance(kw.value, ast.Constant) else (consts[kw.value.id] if isinstance(kw.value, ast.Name) and kw.value.id in consts else ...)
+                    else:
+                        c2 = {q: ... for q in pn}
+                for q, d in callee.defaults().items():
+                    if q not in c2 and isinstance(d, ast.Constant):
+                        c2[q] = d.value
+                c2 = {k: v_ for k, v_ in c2.items() if v_ is not ... and (v_ is None or isinstance(v_, (bool, int, float, str)))}
+                out |= live_reads(ctx, callee, c2, depth + 1, _seen)
+    return out
+
+
+def check_cache_coherence(ctx, res: Result, cls: str, attr: str, rule="E-CACHE"):
+    """`self.<attr>` is a memo of derived data filled by a query.  Every method of the class that changes a table the memo is
+    computed from has to rebind the memo (reset / refill) on every path through that change - itself, or through a method
+    of the same object that rebinds it on all of its paths."""
+    if (cls, attr) in res.__dict__.setdefault("_cache_done", set()):
+        return
+    res._cache_done.add((cls, attr))
+    res.rules.setdefault(rule, "a value cached on the object by a query is rebound by every method that changes the tables it was computed from")
+    methods = ctx.methods(cls)
+    memo_always: Dict[str, bool] = {}
+
+    def rebind_points(fi, depth=0):
+        """CFG ids of statements after which the memo has certainly been rebound"""
+        v = ctx.view(fi)
+        me = fi.params[0].arg if fi.params else "self"
+        pts = set()
+        for n in walk_no_nested(fi.node):
+            if isinstance(n, (ast.Assign, ast.AnnAssign, ast.Delete)):
+                tg = n.targets if not isinstance(n, ast.AnnAssign) else [n.target]
+                if any(isinstance(t, ast.Attribute) and t.attr == attr and isinstance(t.value, ast.Name) and t.value.id == me for t in tg):
+                    cid = v.cfg_id(n)
+                    if cid is not None:
+                        pts.add(cid)
+            if isinstance(n, ast.Call) and depth < 3:
+                for c in v._same_object_callees(n):
+                    if always(c, depth + 1):
+                        cid = v.cfg_id(n)
+                        if cid is not None:
+                            pts.add(cid)
+        return pts
+
+    def always(fi, depth=0):
+        if fi.qualname in memo_always:
+            return memo_always[fi.qualname]
+        memo_always[fi.qualname] = False
+        v = ctx.view(fi)
+        pts = rebind_points(fi, depth)
+        r = bool(pts) and not v.cfg.reaches_without(v.cfg.entry, v.cfg.exit, pts)
+        memo_always[fi.qualname] = r
+        return r
+
+    def direct_rebind(fi):
+        me = fi.params[0].arg if fi.params else "self"
+        return any(isinstance(n, ast.Assign) and any(isinstance(t, ast.Attribute) and t.attr == attr and isinstance(t.value, ast.Name) and t.value.id == me for t in n.targets) and not (isinstance(n.value, ast.Constant) and n.value.value is None) for n in walk_no_nested(fi.node))
+
+    fillers = [fi for fi in methods.values() if fi.name != "__init__" and direct_rebind(fi)]
+    deps = set()
+    for fi in fillers:
+        consts = {q: d.value for q, d in fi.defaults().items() if isinstance(d, ast.Constant) and (d.value is None or isinstance(d.value, (bool, int, float, str)))}
+        deps |= {tab for (c, tab) in live_reads(ctx, fi, {}) if c == cls}
+    if not fillers or not deps:
+        res.unknown(rule, f"{cls}", f"self.{attr}", "depends-on", "the tables the cached value is computed from were not determined", "")
+        return
+    res.ok(rule, fillers[0].short, f"self.{attr}", "depends-on:" + ",".join(sorted(deps)), loc(fillers[0], fillers[0].node))
+    n = 0
+    for name, fi in sorted(methods.items()):
+        if name == "__init__":
+            continue
+        v = ctx.view(fi)
+        writes = [o for o in v.ops() if o.is_write and o.cls == cls and o.table in deps]
+        if not writes:
+            continue
+        pts = rebind_points(fi)
+        for o in writes:
+            n += 1
+            hard = not o.elem_level and not o.may and o.op in ("store", "del", "clear", "setattr", "remove")
+            cid = v.cfg_id(o.node)
+            covered = cid is not None and (cid in pts or not (v.cfg.reaches_without(v.cfg.entry, cid, pts) and v.cfg.reaches_without(cid, v.cfg.exit, pts)))
+            if covered:
+                res.ok(rule, fi.short, o.text(), f"rebound:{o.table}", loc(fi, o.node))
+            elif hard:
+                res.violation(rule, fi.short, o.text(), f"rebound:{o.table}", f"{fi.short} changes {o.table}, from which the cached self.{attr} is computed, on a path that never rebinds the cache: later queries answer from the stale value", loc(fi, o.node))
+            else:
+                res.unknown(rule, fi.short, o.text(), f"rebound:{o.table}", f"{fi.short} updates entries of {o.table} without rebinding the cached self.{attr}; whether the cached value depends on them is not decided", loc(fi, o.node))
+    if n == 0:
+        res.unknown(rule, cls, f"self.{attr}", "writers", "no method writing the tables the cache depends on was found", "")
 
 
 def check_deepcopy(ctx, res: Result, dotted: str, rule="E-FRESHCOPY"):
@@ -539,7 +857,48 @@ def check_deepcopy(ctx, res: Result, dotted: str, rule="E-FRESHCOPY"):
                 res.violation(rule, fi.short, norm(n), "deep:" + src, f"the copy receives a one-level copy of {src}, whose values are mutable (lists / metadata dicts): they are shared between the copy and the original, so an in-place update of one shows up in the other", loc(fi, n))
             if shared:
                 continue
+        # copy rebuilt from the binary snapshot: h.populate_from_dict(copy.deepcopy(self.expose_data_structures()))
+        if isinstance(r.value, ast.Name) and fi.cls is not None and _snapshot_copy(ctx, res, v, fi, r, rule):
+            continue
         res.unknown(rule, fi.short, norm(r), "deep", "the returned object is not recognised as copy.deepcopy(self)", loc(fi, r))
+
+
+def _snapshot_copy(ctx, res, v, fi, r, rule) -> bool:
+    """`h = Cls(...); h.populate_from_dict(<deep copy of self.expose_data_structures()>); return h`: the copy holds what the
+    snapshot carries - every table of the class has to be both exposed and restored, and the snapshot deep-copied."""
+    from . import schema as S
+
+    obj = r.value.id
+    cls = fi.cls.name
+    call = None
+    for n in walk_no_nested(fi.node):
+        if isinstance(n, ast.Call) and isinstance(n.func, ast.Attribute) and n.func.attr == "populate_from_dict" and isinstance(n.func.value, ast.Name) and n.func.value.id == obj and n.args:
+            call = n
+    if call is None:
+        return False
+    arg = v.inline(call.args[0])
+    snap = [x for x in ast.walk(arg) if isinstance(x, ast.Call) and isinstance(x.func, ast.Attribute) and x.func.attr == "expose_data_structures" and isinstance(x.func.value, ast.Name) and x.func.value.id == "self"]
+    if not snap:
+        return False
+    deep = isinstance(arg, ast.Call) and norm(arg.func) in ("copy.deepcopy", "deepcopy")
+    res.add(rule, fi.short, norm(call), "deep", "ok" if deep else "violation", "" if deep else "the copy is filled from the tables of self as they are (the snapshot is not deep-copied): tables / metadata dicts are shared between the copy and the original", loc(fi, call))
+    try:
+        ex = ctx.require(f"{cls}.expose_data_structures")
+        po = ctx.require(f"{cls}.populate_from_dict")
+    except Exception:
+        return True
+    written, _ = S._exposed(ex)
+    read = S._restored(po)
+    ex_open = S._has_other_writes(ex) or not written
+    po_open = not read or any(isinstance(n, ast.Call) and isinstance(n.func, ast.Name) and n.func.id == "setattr" for n in ast.walk(po.node)) or any(isinstance(n, (ast.For, ast.While)) for n in ast.walk(po.node))
+    for tab in sorted(ctx.interp.class_tables.get(cls, {})):
+        if tab in written and tab in read:
+            res.ok(rule, fi.short, f"self.{tab}", "snapshot-carries", loc(fi, call))
+        else:
+            side = "exposed by expose_data_structures" if tab not in written else "restored by populate_from_dict"
+            open_ = ex_open if tab not in written else po_open
+            res.add(rule, fi.short, f"self.{tab}", "snapshot-carries", "unknown" if open_ else "violation", f"copy() is rebuilt from the binary snapshot, but {tab} is not {side}: the copy silently loses that table and is not equal to the original", loc(fi, call))
+    return True
 
 
 def check_shared_literals(ctx, res: Result, dotted: str, rule="E-SHARED"):
